@@ -52,6 +52,53 @@ pub fn all_actions() -> Vec<Action> {
     v
 }
 
+/// Long texts: every byte length up to a bound, with one multi-byte character (2, 3 and 4 bytes) starting at every
+/// byte offset, the rest ASCII; beyond the bound only around the powers of two.  A parser (or the code that builds
+/// its error value) that cuts the text at a fixed BYTE offset meets a character straddling that offset here.
+fn long_strings(thorough: bool) -> Vec<String> {
+    let mut out = vec![];
+    let wide = ['é', '€', '𝄞'];
+    let bound = if thorough { 272 } else { 136 };
+    let mut lens: Vec<usize> = (5..=bound).collect();
+    for b in [256usize, 512, 1024, 4096, 65536] {
+        if b > bound {
+            lens.extend(b - 1..=b + 4);
+        }
+    }
+    for (li, &len) in lens.iter().enumerate() {
+        for (wi, &c) in wide.iter().enumerate() {
+            let w = c.len_utf8();
+            let offsets: Vec<usize> = if len <= bound {
+                (0..=len - w).collect()
+            } else {
+                // around every power of two below the length
+                let mut v = vec![];
+                let mut b = 8;
+                while b < len {
+                    v.extend((b.saturating_sub(3)..=b).filter(|o| o + w <= len));
+                    b *= 2;
+                }
+                v
+            };
+            for o in offsets {
+                // half of them start like a printed action, so that a parser which looks at a prefix goes further
+                let head = if (li + wi + o) % 2 == 0 { "a1n" } else { "" };
+                let mut t = String::with_capacity(len);
+                t.push_str(&head[..head.len().min(o)]);
+                while t.len() < o {
+                    t.push('a');
+                }
+                t.push(c);
+                while t.len() < len {
+                    t.push('1');
+                }
+                out.push(t);
+            }
+        }
+    }
+    out
+}
+
 pub fn notation(rng: &mut Rng, max_len: usize, extra_random: usize, rep: &mut Report, sink: &mut Sink) {
     let mut strings = all_strings(max_len);
     // sampled beyond the bound: longer strings built from printed forms with one mutation
@@ -72,6 +119,7 @@ pub fn notation(rng: &mut Rng, max_len: usize, extra_random: usize, rep: &mut Re
         }
         strings.push(s.into_iter().collect());
     }
+    strings.extend(long_strings(max_len >= 4));
     for s in &strings {
         let n = s.chars().count();
         rep.eval("C16");
